@@ -3,8 +3,8 @@ package main
 import (
 	"context"
 	"fmt"
-	"os"
 	"go/types"
+	"os"
 	"sort"
 	"strings"
 
@@ -984,7 +984,8 @@ func (vc *FnVC) emitAxioms() {
 		return
 	}
 	if vc.usesSliceTag {
-		for id, t := range vc.prog.tagType {
+		for _, id := range vc.enc.tagIDs() {
+			t := vc.enc.tagType[id]
 			_, isSlice := t.Underlying().(*types.Slice)
 			_, isStruct := t.Underlying().(*types.Struct)
 			if isSlice {
